@@ -1,4 +1,5 @@
 import Tahoe.Mutable.ServerMapLemmas
+import Tahoe.Mutable.ResurveyLemmas
 /-! C11 — mutable version ordering and rollback resistance (property theorems; helper lemmas live in
     `Tahoe/Mutable/ServerMapLemmas.lean`). -/
 namespace Tahoe.C11
@@ -229,5 +230,28 @@ theorem read_done_sound (u : Upd) (hmode : u.mode = .read) (h : checkForDone u =
               omega
 
 example : checkForDone { updEx with sm := { known := [((10, 0), vA), ((11, 1), vA)] } } = .done := by decide
+
+/-- Several survey passes into one servermap (`modify()`, the MODE_CHECK retry, the MDMF update path): the
+    observations are never removed.  If the shares do not change while the operation runs (every report of
+    a slot names the same version — servers may stop answering between passes, in any pattern), then the
+    sequence number chosen after the last pass is above the sequence number of every share reported in
+    ANY pass, and above everything that was in the map before. -/
+theorem new_seqnum_exceeds_all_passes (sm0 : ServerMap) (passes : List (List SurveyEv))
+    (hstable : ∀ s sh v v', SurveyEv.share s sh v ∈ passes.flatten → SurveyEv.share s sh v' ∈ passes.flatten → v' = v)
+    (hstable0 : ∀ key v v', (key, v) ∈ sm0.known → SurveyEv.share key.1 key.2 v' ∈ passes.flatten → v' = v) :
+    (∀ s sh v, SurveyEv.share s sh v ∈ passes.flatten → v.seqnum < newSeqnum (some (resurvey sm0 passes))) ∧
+    (∀ key v, (key, v) ∈ sm0.known → v.seqnum < newSeqnum (some (resurvey sm0 passes))) := by
+  rw [resurvey_eq_foldl]
+  constructor
+  · intro s sh v hm
+    exact (new_seqnum_exceeds_survey _).1 (s, sh) v
+      (foldl_records _ _ s sh v hm (fun v' hm' => hstable s sh v v' hm hm'))
+  · intro key v hk
+    exact (new_seqnum_exceeds_survey _).1 key v
+      (foldl_keeps _ _ key v hk (fun v' hm' => hstable0 key v v' hk hm'))
+
+/-- pass 1: server 12 answers with its seq-5 share; pass 2: server 12 fails.  The choice is still 6. -/
+example : newSeqnum (some (resurvey {} [[.share 10 0 vA, .answered 10, .share 12 2 vB, .answered 12],
+    [.share 10 0 vA, .answered 10, .failed 12]])) = 6 := by decide
 
 end Tahoe.C11
